@@ -31,7 +31,7 @@ func vhTokens() []Token {
 	n := vChoose("ntokens", vhMaxTokens+1)
 	toks := make([]Token, 0, n+1)
 	for i := 0; i < n; i++ {
-		ty := TokenType(vRune("type"))
+		ty := TokenType(vInt("type"))
 		vAssume(ty != EOF)
 		toks = append(toks, Token{Type: ty, Value: "x", Pos: Position{Filename: "f", Offset: i, Line: 1, Column: i + 1}})
 	}
